@@ -17,8 +17,9 @@ import traceback
 HERE = os.path.dirname(os.path.dirname(os.path.abspath(__file__)))
 sys.path.insert(0, HERE)
 
-EVIDENCE_DIR = os.path.join(HERE, 'evidence')
-REPLAY_DIR = os.path.join(HERE, '.work', 'replay')
+# VERIF_OUT (used by tools/seedtest.sh): write evidence and replay files of a run against a scratch tree somewhere else
+EVIDENCE_DIR = os.path.join(os.environ['VERIF_OUT'], 'evidence') if os.environ.get('VERIF_OUT') else os.path.join(HERE, 'evidence')
+REPLAY_DIR = os.path.join(os.environ['VERIF_OUT'], 'replay') if os.environ.get('VERIF_OUT') else os.path.join(HERE, '.work', 'replay')
 FINDINGS = os.path.join(HERE, 'known_findings.json')
 
 
